@@ -15,7 +15,8 @@ prop(
          "(1-3 rule files, or 31-36 small ones; modified / new / deleted / renamed; unified diff derived from a whole-file edit script) x a "
          "comment population (pint's own comments left by an earlier run, of which some are current and some stale; hand-made stale / moved / "
          "duplicated own comments; foreign positional, file-level and general comments; foreign replies; system notes; sometimes >1 API page) x "
-         "2-6 runs whose report set evolves (add / drop / move / change text / unchanged; problems sharing check+lines; repeated issues; removed "
+         "2-6 runs whose report set evolves (add / drop / move / change text / unchanged / burst = more new problems than the budget on the "
+         "first-sorting rule, so already commented problems come after the deferred ones; problems sharing check+lines; repeated issues; removed "
          "rules reported with AnchorBefore; symlinked paths) + settle runs repeating the last report set. Reports are synthetic Problems on rules "
          "parsed by pint's parser from the generated files, confined to rules with at least one line in the diff, ModifiedLines computed as "
          "discovery.GitBranchFinder does. Each run is reporter.NewCommentReporter(NewGithubReporter|NewGitLabReporter).Submit. "
@@ -24,7 +25,9 @@ prop(
     level_text="Generated-input search (rapid, fixed seeds) over run sequences against an explicit model of the statement: (i) at most maxComments "
                "creations per run, (ii) nothing created that equals (path, line, side, trimmed text) a comment that existed before the run, (iii) a "
                "problem may lack a comment carrying its text at its file and one of its lines only if the run used its whole budget, (iv) on GitLab "
-               "every own positional comment that corresponds to no reported problem is gone, nothing else is deleted or edited; on GitHub nothing is, "
+               "every own positional comment that corresponds to no reported problem is gone, no deleted comment equals (path, line, trimmed text) a "
+               "comment the same summary produces on an empty pull request (shadow run = this run's pending comments), nothing else is deleted or "
+               "edited; on GitHub nothing is, "
                "(v) repeating a run that had budget left, with unchanged reports, creates and deletes nothing, (vi) with unchanged reports at most "
                "floor(problems/maxComments) runs use the whole budget. Says the relations held on N generated sequences; no proof of absence.",
     level_note="The fakes model the documented REST behaviour (pagination defaults 30 / 20 with Link / X-Next-Page, 422 for a review-comment line outside "
